@@ -298,6 +298,24 @@ pub fn run_pairing(a: &Args, out: &mut Out) {
             }
         }
     }
+    if focus == "agree" {
+        // SWEEP: every sparse-Montgomery pool value as the z of a G1 representative, and as the real or imaginary part of the z of a
+        // G2 representative (quick: every third value, rotating with the seed)
+        let poolq = load_pool(&a.pool, "Fq");
+        for (i, l) in sparse_mont(&poolq.vals).into_iter().enumerate() {
+            let (ka, kb) = (pick_scalar(&mut rng, &pool), pick_scalar(&mut rng, &pool));
+            if ka.is_zero() || kb.is_zero() { continue; }
+            let (mut pn, mut qn) = (G1::one() * ka, G2::one() * kb);
+            pn.normalize();
+            qn.normalize();
+            // G1: every value (the Fq inversion sees z itself); G2: a third of them (its inversion sees the norm of z)
+            pair_ev(out, ENTRY[i % 3], g1_scale(pn, l), qn, ka, kb, false);
+            if a.tier == "thorough" || (i as u64 + a.seed) % 3 == 0 {
+                let lz = if i % 2 == 0 { Fq2::new(l, Fq::zero()) } else { Fq2::new(Fq::zero(), l) };
+                pair_ev(out, ENTRY[(i / 3) % 3], pn, g2_scale(qn, lz), ka, kb, false);
+            }
+        }
+    }
     let (eig1, eig2) = (endo_eigen::<G1>(), endo_eigen::<G2>());
     let mut k = 0u64;
     while !out.full() {
